@@ -2,8 +2,9 @@
 (* Model-checking instance of RpcRead: the transaction table (an operator constant a .cfg cannot
    express).  Transaction ids are 10*height + kind digit:
      1 INVOKE v3   2 L1_HANDLER   3 INVOKE v1 with a REVERTED receipt   4 DEPLOY_ACCOUNT
-     5 DECLARE     6 DEPLOY (legacy)   7 a second L1_HANDLER
-   Variant 0 of every height carries <<invoke, l1 handler, reverted invoke>>.  Variant 1 is chosen
+     5 DECLARE     6 DEPLOY (legacy)   7 a second L1_HANDLER (legacy form: no nonce)   8 INVOKE v0 (legacy)
+   Variant 0 of every height carries <<invoke, l1 handler, reverted invoke>> (plus a legacy
+   invoke v0 at height 2).  Variant 1 is chosen
    so that a reorg at each height exercises a different relation between the dropped and the new
    block's transactions (what the tx-hash index must survive):
      height 0  DISJOINT sets of EQUAL length <<l1 handler', deploy, declare>>: whichever
@@ -17,7 +18,7 @@
 EXTENDS RpcRead
 
 MCTxs(n, v) ==
-  IF v = 0 THEN <<10 * n + 1, 10 * n + 2, 10 * n + 3>>
+  IF v = 0 THEN (IF n = 2 THEN <<21, 22, 23, 28>> ELSE <<10 * n + 1, 10 * n + 2, 10 * n + 3>>)
   ELSE CASE n = 0 -> <<7, 6, 5>>
          [] n = 1 -> <<12, 14, 15>>
          [] n = 2 -> <<>>
